@@ -54,3 +54,4 @@ LEVEL_NOTE = ("Trusted: Lean kernel; axioms propext/Classical.choice/Quot.sound 
               "Decimal rounding/overflow, broadcast lag/no-subscriber, request-loop shutdown and the unanswered cancel request (response sender dropped; modelled as "
               "`dropped`, not part of this property) are outside the theorems. Buying does not credit the base asset and selling does not credit the quote asset in "
               "the code; the property does not ask for it and the theorems state exactly that only the spent asset changes.")
+SUBCHECKS = ["C08C"]
